@@ -725,7 +725,8 @@ fn genuine_equiv(cls: Cls, a: Alter) -> bool {
     Alter::CertForeign | Alter::CertSelf | Alter::CertInsider | Alter::PdataOther | Alter::PermRehash => {
       cls == Cls::Fin
     }
-    Alter::ForgeForeign | Alter::ForgeInsiderSig | Alter::ForgeInsiderFull => false,
+    Alter::ForgeInsiderSig => cls == Cls::Req,
+    Alter::ForgeForeign | Alter::ForgeInsiderFull => false,
   }
 }
 fn known_class(script: &[Op]) -> bool {
